@@ -167,32 +167,39 @@ Proof. reflexivity. Qed.
 
 Theorem stale_is_rewritten cur src m :
   decide cur src m = Rewrite <->
-  (m = None \/ exists mt mg, m = Some (mt, mg) /\ (mt < src \/ mg <> cur)).
+  (m = None \/ exists mt mg same, m = Some (mt, mg, same) /\ (mt < src \/ mg <> cur \/ same = false)).
 Proof.
-  unfold decide. destruct m as [[mt mg]|].
+  unfold decide. destruct m as [[[mt mg] same]|].
   - destruct (N.ltb_spec mt src) as [Hlt|Hge].
-    + split; [intros _; right; exists mt, mg; auto|reflexivity].
-    + destruct (N.eqb_spec mg cur) as [->|Hne].
-      * split; [discriminate|]. intros [H|[mt' [mg' [[= <- <-] [H|H]]]]]; [discriminate|lia|congruence].
-      * split; [intros _; right; exists mt, mg; auto|reflexivity].
+    + split; [intros _; right; exists mt, mg, same; auto|reflexivity].
+    + destruct (N.eqb_spec mg cur) as [->|Hne]; cbn [andb].
+      * destruct same.
+        -- split; [discriminate|]. intros [H|[mt' [mg' [same' [[= <- <- <-] [H|[H|H]]]]]]]; [discriminate|lia|congruence|discriminate].
+        -- split; [intros _; right; exists mt, cur, false; auto|reflexivity].
+      * split; [intros _; right; exists mt, mg, same; auto|reflexivity].
   - split; [intros _; left; reflexivity|reflexivity].
 Qed.
 
 Theorem fresh_is_reused cur src mt :
-  src <= mt -> decide cur src (Some (mt, cur)) = Reuse.
+  src <= mt -> decide cur src (Some (mt, cur, true)) = Reuse.
 Proof.
   intros H. unfold decide. assert (E : (mt <? src) = false) by (apply N.ltb_ge; exact H).
   rewrite E, N.eqb_refl. reflexivity.
 Qed.
 
+(* the module of another source file is never reused, however fresh it looks *)
+Theorem foreign_module_is_rewritten cur src mt mg :
+  decide cur src (Some (mt, mg, false)) = Rewrite.
+Proof. unfold decide. destruct (mt <? src); [reflexivity|]. rewrite andb_false_r. reflexivity. Qed.
+
 (* the module is (re)written exactly once when a rewrite is due and not at all otherwise *)
 Theorem writer_called_exactly_when_due cur src m :
   writes_performed cur src m = match decide cur src m with Rewrite => 1 | Reuse => 0 end.
 Proof.
-  unfold writes_performed, decide. destruct m as [[mt mg]|].
-  - destruct (mt <? src); [rewrite N.eqb_refl; reflexivity|].
-    destruct (mg =? cur); reflexivity.
-  - rewrite N.eqb_refl. reflexivity.
+  unfold writes_performed, decide. destruct m as [[[mt mg] same]|].
+  - destruct (mt <? src); [reflexivity|].
+    destruct ((mg =? cur) && same); reflexivity.
+  - reflexivity.
 Qed.
 
 (* ---- verify_directory never raises, whatever the interleaving ------------------------------ *)
